@@ -743,6 +743,7 @@ func init() {
 
 func init() {
 	register(&checkDef{prop: "C09", parts: []part{
+		{name: "raw_client_sweep", gen: genRawSweepBase, expand: expandRawSweep, monitors: []Monitor{monRawClient("C09")}, labels: labelsRaw, nontrivial: ntRawSweep, quick: 1, thorough: 30},
 		{name: "raw_client", gen: genRawClient, monitors: []Monitor{monRawClient("C09")}, labels: labelsRaw, nontrivial: ntRawClient, quick: 1500, thorough: 40000},
 	},
 		rule: "raw frame scripts against the real endpoints: a valid interleaved conversation for 1-4 streams drawn from the protocol grammar, 0-3 deviations from a catalogue of 28 (client role) applied at drawn positions, a closing conforming unary stream, a schedule tape; a validator model re-derives tunnel-level vs stream-level from the frames; oracle: no panic, serving call returns and nothing is left after the peer hangs up, tunnel-level violation ends the tunnel with an error, stream-level deviations leave the tunnel up and conforming streams complete with their scripted results; non-trivial = a script with at least one deviation whose frames were processed"})
@@ -764,6 +765,7 @@ func init() {
 }
 
 func init() {
+	addParts("C09", part{name: "raw_server_sweep", gen: genRawServerSweepBase, expand: expandRawServerSweep, monitors: []Monitor{monRawServer("C09")}, labels: labelsRaw, nontrivial: ntRawSweep, quick: 1, thorough: 30})
 	addParts("C09", part{name: "raw_server", gen: genRawServer, monitors: []Monitor{monRawServer("C09")}, labels: labelsRaw, nontrivial: ntRawServer, quick: 1200, thorough: 30000})
 	addParts("C16", part{name: "raw_server_shapes", gen: genRawServerShapes, monitors: []Monitor{monRawServer("C16")}, labels: labelsRaw, nontrivial: ntRawServer, quick: 600, thorough: 15000})
 	addParts("C06", part{name: "raw_server_overrun", gen: genRawServerOverrun, monitors: []Monitor{monRawServer("C06")}, labels: labelsRaw, nontrivial: ntRawServer, quick: 400, thorough: 10000})
